@@ -59,6 +59,19 @@ def sweep_cases(rng, tmpdir):
             ('vd 0 load ' + h(os.path.join(tmpdir, 'missing.npd')), 'ENOENT'), ('vd 0 save ' + h('/nonexistent-dir/x.npd'), 'ENOENT')]
     G.append(('vnadata', vd_setup, [(l, (e,), False) for l, e in bad], 'vd 0 digest',
               ['vd 0 set_cell 1 1 1 %s' % z(0.5), 'vd 0 get_cell 1 1 1', 'vd 0 convert 1 4', 'vd 0 cksave ' + h('x.npd'), 'vd 0 init 4 1 1 1', 'vd 0 free', 'vd 1 free']))
+    # files refused at different places of the loaders: every refusal is reported once, and so is every refusal after it on the same object
+    npd = lambda par, row: ('#NPD\n#:version 1.0\n#:ports 1\n#:frequencies 1\n#:parameters %s\n#:z0 50 0j\n%s\n' % (par, row)).encode()
+    files = [('x.npd', npd('Qri', '1e9 0.25 0.5')), ('x.npd', npd('Sri,Zindb', '1e9 0.25 0.5 1 2')), ('x.npd', npd('Sri', '1e9 bogus 0.5')), ('x.npd', npd('Sri', '1e9 0.25')),
+             ('x.npd', b'#NPD\n#:version 9.0\n'), ('x.s1p', b'# HZ Q RI R 50\n1e9 1 2\n'), ('x.s1p', b'# HZ S RI R 50\n1e9 1\n'),
+             ('x.ts', b'[Version] 2.0\n# HZ S RI R 50\n[Number of Ports] 1\n[Number of Frequencies] 2\n[Network Data]\n1e9 1 2\n[End]\n')]
+    bf = []
+    for name_, data_ in files:
+        bf.append(('vd 0 loadstr %s x%s' % (h(name_), data_.hex()), ('EBADMSG', 'ENOPROTOOPT'), False))
+        bf.append(('vd 0 set_fprecision 0', ('EINVAL',), False))
+        bf.append(('vd 0 get_cell 0 5 5', ('EINVAL',), False))
+    # (a failed load may leave the destination empty: the observation is a second, untouched object)
+    G.append(('vnadata-badfile', ['vd 0 alloc', 'vd 0 init 1 1 1 1', 'vd 1 alloc', 'vd 1 init 1 1 1 1'], bf, 'vd 1 digest',
+              ['vd 0 init 1 2 2 1', 'vd 0 set_cell 0 1 1 %s' % z(0.5), 'vd 0 get_cell 0 1 1', 'vd 0 free', 'vd 1 free']))
     # the same refusals on an object in per-frequency impedance mode (a refused setter must not collapse the mode)
     fz_setup = vd_setup + ['vd 0 set_fz0_vector 0 %s %s' % (z(75 + 1j), z(75 + 2j)), 'vd 0 set_fz0_vector 1 %s %s' % (z(80 + 1j), z(80 + 2j))]
     G.append(('vnadata-fz0', fz_setup, [(l, (e,), False) for l, e in bad if ' get_fz0' not in l or ' -1' in l or ' 2 ' in l or ' 3' in l or '1000000' in l], 'vd 0 digest',
@@ -211,7 +224,7 @@ def run(chk):
             for (pl, classes, silent), i in zip(probes, idx):
                 chk.evaluations += 1
                 ok, e, cbe, cbw = parse_res(out[i])
-                rep = setup + [digest, pl, digest]
+                rep = setup + ([digest, pl, digest] if digest else [x[0] for x in probes[:probes.index((pl, classes, silent)) + 1]])
                 if ok is None:
                     chk.violation('harness', 'harness answered %r to %r' % (out[i][:60], pl[:80]), rep)
                     continue
